@@ -121,7 +121,9 @@ func bodyPlace(c *hk.Ctx, prop string) {
 		a := &simmesos.Agent{ID: "agent-" + h, Hostname: h, Attributes: map[string]string{
 			"machine_id": h, "zone": zones[c.W(2, "zone")], "kind": []string{"flp", "flp,test", "epn"}[c.W(3, "kind")]},
 			Cpus: []float64{0.45, 1.2, 8}[c.W(3, "cpus")], Mem: []float64{300, 4096}[c.W(2, "mem")]}
-		switch c.W(3, "ports") {
+		switch c.W(4, "ports") {
+		case 3:
+			a.PortsBegin, a.PortsEnd = 9102, 31000 // has 9103 but not 9100-9101
 		case 0:
 			a.PortsBegin, a.PortsEnd = 9000, 31000
 		case 1:
@@ -177,8 +179,11 @@ func bodyPlace(c *hk.Ctx, prop string) {
 		if prop == "C05" {
 			t.ClassC = drawC("class-c", 1)
 			t.RoleC = drawC("role-c", 2)
-			if c.W(4, "static-ports") == 3 {
+			switch c.W(6, "static-ports") {
+			case 4:
 				t.Static = "9100-9101"
+			case 5:
+				t.Static = "9103,9100-9101" // a list need not be ascending
 			}
 		}
 		nBind := c.W(3, "bind")
@@ -420,7 +425,7 @@ func bodyPlace(c *hk.Ctx, prop string) {
 			for _, p := range st.Ports {
 				has[p] = true
 			}
-			if !has[9100] || !has[9101] {
+			if !has[9100] || !has[9101] || (strings.Contains(pt.Static, "9103") && !has[9103]) {
 				viol("C05", "static-ports", "missing", "task %s has static ports %s in its template but requests ports %v", pt.Role, pt.Static, st.Ports)
 			}
 		}
